@@ -219,6 +219,17 @@ def build(spec, scratch=None, stop_at=None, tolerate_flagged=False):
                 b.rejected.append((i, j, exc))
                 continue
             raise BuildError(exc, i, j)
+    for i, lf in enumerate(spec['lfs']):
+        h = lf.get('hdr') or {}
+        if 'id_later' in h and stop_at is None:
+            # the header id changed after the objects (and the origin, which copied the id into its FILE-ID) were added;
+            # 'id_later_sync' also brings the defining origin's FILE-ID in line, as the write-time check demands
+            try:
+                b.lfs[i].file_header.header_id = h['id_later']
+                if h.get('id_later_sync'):
+                    b.lfs[i].defining_origin.file_id.value = h['id_later']
+            except Exception as exc:
+                raise BuildError(exc, i, 'hdr-later')
     return b
 
 
